@@ -19,7 +19,8 @@ RULE = ("per type universe: every sequence (= multiset in every registration "
 EXPLANATION = ("exhaustive enumeration; reference = brute-force enumeration "
                "of all offer sequences without repetition whose issubclass "
                "chain is applicable and whose factories all succeed")
-BOUNDS = {"quick": "3 universes (linear, diamond, ABC/virtual), <=3 offers "
+BOUNDS = {"quick": "6 universes (linear, diamond, ABC/virtual, falsy "
+                   "adapter, branching, late ABC registration), <=3 offers "
                    "(linear), <=2 offers (others)",
           "thorough": "<=4 offers on a reduced pair set (linear), <=3 "
                       "(others)"}
